@@ -16,6 +16,9 @@ pub mod c12;
 pub mod c13;
 pub mod c14;
 pub mod c15;
+pub mod c16;
+pub mod c17;
+pub mod c18;
 
 /// (report, rule, explanation, exhaustive-subspace flag)
 pub fn run(prop: &str, ctx: &Ctx) -> Option<(Report, &'static str, &'static str, bool)> {
@@ -35,6 +38,9 @@ pub fn run(prop: &str, ctx: &Ctx) -> Option<(Report, &'static str, &'static str,
         "C13" => (c13::run(ctx), c13::RULE, "", false),
         "C14" => (c14::run(ctx), c14::RULE, "", false),
         "C15" => (c15::run(ctx), c15::RULE, "", false),
+        "C16" => (c16::run(ctx), c16::RULE, "", true),
+        "C17" => (c17::run(ctx), c17::RULE, "", false),
+        "C18" => (c18::run(ctx), c18::RULE, "", false),
         _ => return None,
     })
 }
